@@ -56,17 +56,22 @@ class Short(Exception):
 
 
 class Rd:
-    """`lenient=True`: a length field that promises more bytes than are left yields the bytes that are
-    left (framing damage does not turn a cryptographically valid value into an invalid one)."""
+    """lenient: False = strict; "clamp" = a length field that promises more bytes than are left yields the
+    bytes that are left; "pad" = such a short read is filled up with zero bytes (up to 1 MiB).  The lenient
+    modes exist so that framing damage does not turn a cryptographically valid value into an 'invalid' one."""
 
     def __init__(self, data, pos=0, lenient=False):
         self.d = bytes(data)
         self.p = pos
         self.lenient = lenient
 
-    def take(self, n, clamp=False):
-        if clamp and self.lenient and n >= 0 and self.p + n > len(self.d):
-            n = len(self.d) - self.p
+    def take(self, n, soft=False):
+        if soft and self.lenient and n >= 0 and self.p + n > len(self.d):
+            left = self.d[self.p:]
+            self.p = len(self.d)
+            if self.lenient == "pad" and n < (1 << 20):
+                return left + bytes(n - len(left))
+            return left
         if n < 0 or self.p + n > len(self.d):
             raise Short()
         b = self.d[self.p:self.p + n]
@@ -83,7 +88,7 @@ class Rd:
         return struct.unpack(">I", self.take(4))[0]
 
     def string(self):
-        return self.take(self.u32(), clamp=True)
+        return self.take(self.u32(), soft=True)
 
     def mpint(self):
         return int.from_bytes(self.string(), "big", signed=True)
@@ -103,18 +108,22 @@ def session_blob(sid, user, service, alg, keyblob):
 def verify_sig(keyblob, sigfield, data):
     """True iff `sigfield` (string format-name, string blob) carries a signature value that verifies under
     the public key encoded in `keyblob` over `data`.  cryptography only.  Validity means cryptographic
-    validity of the values carried: framing is read leniently (over-long length fields are clamped to the
-    bytes present, trailing bytes are ignored) so that a valid (r, s) / RSA / Ed25519 value in a damaged
-    envelope still counts as the valid proof it is."""
+    validity of the values carried: besides the strict reading, framing is also read leniently (over-long
+    length fields clamped to the bytes present, or the short read zero-filled; trailing bytes ignored) and
+    the signature counts as valid if any reading verifies."""
+    return any(_verify_sig(keyblob, sigfield, data, mode) for mode in (False, "clamp", "pad"))
+
+
+def _verify_sig(keyblob, sigfield, data, mode):
     from cryptography.exceptions import InvalidSignature
     from cryptography.hazmat.primitives import hashes
     from cryptography.hazmat.primitives.asymmetric import ec, ed25519, padding, rsa
     from cryptography.hazmat.primitives.asymmetric.utils import encode_dss_signature
 
     try:
-        k = Rd(keyblob, lenient=True)
+        k = Rd(keyblob, lenient=mode)
         ktype = k.string()
-        s = Rd(sigfield, lenient=True)
+        s = Rd(sigfield, lenient=mode)
         sname = s.string()
         sblob = s.string()
         if ktype == b"ssh-rsa":
@@ -136,7 +145,7 @@ def verify_sig(keyblob, sigfield, data):
             curve, h = {b"nistp256": (ec.SECP256R1, hashes.SHA256), b"nistp384": (ec.SECP384R1, hashes.SHA384),
                         b"nistp521": (ec.SECP521R1, hashes.SHA512)}[curve_name]
             pub = ec.EllipticCurvePublicKey.from_encoded_point(curve(), point)
-            rs = Rd(sblob, lenient=True)
+            rs = Rd(sblob, lenient=mode)
             r = rs.mpint()
             sv = rs.mpint()
             if r <= 0 or sv <= 0:
